@@ -152,6 +152,20 @@ CHECKS = {
              "cached prefix, observers pull only through next(self). Does not "
              "decide the values observers return.",
         ref="DESIGN.md §3 C13"),
+    "C15": dict(
+        technique="constant folding of the codec alphabets + writer/reader "
+                  "table-agreement queries over the encoder and decoder "
+                  "functions",
+        category="other",
+        text="Clause-level ('tables agree'): every alphabet has distinct "
+             "symbols and excludes its literal's delimiter, the delimiters "
+             "are the lexer heads of their token kinds, encoder and decoder "
+             "use len(alphabet) as radix, the three codecs name the same "
+             "alphabet constants on the writing and the reading side in "
+             "mirrored order, one-digit dictionary indices are padded with "
+             "the zero digit, the dictionary fits in two digits and lookup "
+             "inverts contents. Does not decide to_base's arithmetic.",
+        ref="DESIGN.md §3 C15"),
     "C18": dict(
         technique="taint / sanitiser analysis: abstract interpretation of "
                   "transpile.py in a template domain with sanitiser classes, "
